@@ -3,7 +3,7 @@ Every function returns a value (concrete python, or a Sym) and never forks; the 
 forks on the resulting booleans."""
 import z3
 
-from .values import (SInt, SBool, SStr, SKind, SKindSet, SStrV, SOpt, Opaque, Ref, Tok, TokList, HistList,
+from .values import (fresh_name, SInt, SBool, SStr, SKind, SKindSet, SStrV, SOpt, Opaque, Ref, Tok, TokList, HistList,
                      ClassRef, SType, ExcVal, KINDS, int_term, is_intlike, mk_int, mk_bool, bool_term,
                      str_term, strv_of_const, FuncRef, Builtin, BoundMethod, ExcClass)
 
@@ -166,6 +166,12 @@ def values_eq(a, b, st=None):
         return False
     if isinstance(a, tuple) != isinstance(b, tuple):
         return False
+    # an opaque (unmodelled, side-effect free) value compared with a constant: each
+    # observation is an unconstrained boolean -- an over-approximation of every behaviour
+    # of a pure __eq__
+    for x, y in ((a, b), (b, a)):
+        if isinstance(x, Opaque) and (type(y) in (int, str, bool) or y is None or isinstance(y, (SKind, SInt))):
+            return z3.Bool(fresh_name("opaque_eq"))
     raise Unsupported(f"equality of {a!r} and {b!r}")
 
 
